@@ -19,6 +19,7 @@ import (
 // ---- goroutine state inspection --------------------------------------------------------------
 
 var goidRe = regexp.MustCompile(`^goroutine (\d+) \[`)
+var goHdrRe = regexp.MustCompile(`^goroutine (\d+) \[([^\]]*)\]`)
 
 // CurrentGoroutineID returns the id of the calling goroutine.
 func CurrentGoroutineID() int64 {
@@ -52,7 +53,7 @@ func Goroutines() []GoroutineInfo {
 	}
 	var out []GoroutineInfo
 	for _, blk := range strings.Split(string(buf), "\n\n") {
-		m := regexp.MustCompile(`^goroutine (\d+) \[([^\]]*)\]`).FindStringSubmatch(blk)
+		m := goHdrRe.FindStringSubmatch(blk)
 		if m == nil {
 			continue
 		}
@@ -76,11 +77,22 @@ func StateOf(id int64) (string, string) {
 	return "", ""
 }
 
+// mutexPatience is how long a goroutine may wait for a lock before the lock counts as leaked.
+const mutexPatience = 3 * time.Second
+
+func isLockState(s string) bool {
+	switch s {
+	case "semacquire", "sync.Mutex.Lock", "sync.RWMutex.RLock", "sync.RWMutex.Lock":
+		return true
+	}
+	return false
+}
+
 // blockedStates are the states in which a goroutine cannot proceed without another goroutine
 // acting.
 func isBlockedState(s string) bool {
 	switch s {
-	case "sync.Cond.Wait", "select", "chan receive", "chan send", "semacquire", "sync.Mutex.Lock", "sync.RWMutex.RLock", "sync.RWMutex.Lock", "select (no cases)", "sync.WaitGroup.Wait":
+	case "sync.Cond.Wait", "select", "chan receive", "chan send", "select (no cases)", "sync.WaitGroup.Wait":
 		return true
 	}
 	return false
@@ -148,6 +160,7 @@ func (p *Pending) Settle(maxWait time.Duration) (done bool, state string) {
 		p.gid = <-p.gidC
 	}
 	deadline := time.Now().Add(maxWait)
+	var lockSince time.Time
 	for spin := 0; ; spin++ {
 		if p.Done() {
 			return true, ""
@@ -162,6 +175,19 @@ func (p *Pending) Settle(maxWait time.Duration) (done bool, state string) {
 			<-p.done
 			return true, ""
 		}
+		if isLockState(st) {
+			// waiting for a lock: whoever holds it normally releases it within microseconds.
+			// Only a lock that stays unavailable for mutexPatience counts as blocked (leaked lock).
+			if lockSince.IsZero() {
+				lockSince = time.Now()
+			}
+			if time.Since(lockSince) > mutexPatience {
+				return false, st + " (lock not released)"
+			}
+			time.Sleep(100 * time.Microsecond)
+			continue
+		}
+		lockSince = time.Time{}
 		if isBlockedState(st) {
 			// confirm it is still blocked and not finished
 			if p.Done() {
